@@ -77,6 +77,7 @@ struct St {
     writes: u64,
     empty_frames: u64,
     patterns: HashSet<u64>,
+    histories: u64,
     sample: Vec<J>,
 }
 
@@ -172,7 +173,7 @@ fn run_case(ctx: &Ctx, rng: &mut Rng, is128: bool, st: &mut St, case: u64) {
                 let same = rng.chance(1, 6);
                 let colv = if same { current } else { rng.below(8) as u8 };
                 let val = colv | (rng.u8() & 0x18);
-                let port = ((rng.u8() as u16) << 8) | *rng.pick(&[0xFEu16, 0xFE, 0x7E, 0xF6, 0x02]);
+                let port = ((rng.u8() as u16) << 8) | *rng.pick(&[0xFEu16, 0xFE, 0x7E, 0xF6, 0x02, 0xFC, 0x00, 0xF8, 0x1C]);
                 let at = now;
                 m.out(port, val);
                 let done = m.clock() as i64;
@@ -238,19 +239,108 @@ fn run_case(ctx: &Ctx, rng: &mut Rng, is128: bool, st: &mut St, case: u64) {
     }
 }
 
+/// Long histories on one machine: OUTs to even ports (half of them repeating the previous byte
+/// exactly), SNA/SZX loads with their own border, and idle frames. After every step
+/// `border_color()` must be the low three bits of the last ULA write or the border of the last
+/// loaded snapshot, and an idle frame must show that colour everywhere.
+fn history_case(ctx: &Ctx, rng: &mut Rng, is128: bool, st: &mut St, case: u64) {
+    use crate::spec_snap::{load_sna, load_szx, write_sna, write_szx, Abs, SzxOpts};
+    let g = geo(is128);
+    let mut m = Machine::new(Cfg { sound: false, ..Cfg::of(is128) });
+    quiet(&mut m);
+    let mut current: Option<u8> = None;
+    let mut last: Option<(u16, u8)> = None;
+    let mut hist: Vec<String> = vec![];
+    let fail = |ctx: &Ctx, key: &str, what: String, hist: &Vec<String>| {
+        ctx.violation(key, &what, jobj! {"case"=>case,"is128"=>is128,"history"=>J::Arr(hist.iter().map(|s| J::from(s.as_str())).collect())});
+    };
+    for _ in 0..8 + rng.below(12) {
+        match rng.below(6) {
+            0 | 1 | 2 => {
+                let (port, val) = match last {
+                    Some(l) if rng.bool() => l,
+                    _ => (((rng.u8() as u16) << 8) | *rng.pick(&[0xFEu16, 0xFE, 0x7E, 0x02, 0xFC, 0x00]), rng.u8() & 0x1F),
+                };
+                m.out(port, val);
+                st.writes += 1;
+                hist.push(format!("OUT {:04x},{:02x}", port, val));
+                current = Some(val & 7);
+                last = Some((port, val));
+            }
+            3 | 4 => {
+                let mut a = Abs::random(rng, is128);
+                a.r.pc = 0x8000;
+                a.r.sp = 0xBF00;
+                a.r.iff1 = false;
+                a.r.iff2 = false;
+                a.latch &= 0x17;
+                a.poke_bytes(0x8000, &[0x18, 0xFE]);
+                // half of the time the snapshot border differs from the last write in a chosen way
+                if let Some(c) = current {
+                    if rng.bool() {
+                        a.border = (c + 1 + rng.below(7) as u8) & 7;
+                    }
+                }
+                let szx = rng.bool();
+                let r = if szx { load_szx(&mut m, &write_szx(&a, &SzxOpts::plain(), rng)) } else { load_sna(&mut m, &write_sna(&a)) };
+                hist.push(format!("load {} border={}", if szx { "szx" } else { "sna" }, a.border));
+                match r {
+                    Ok(Ok(())) => {}
+                    other => {
+                        fail(ctx, "border-history:load-failed", format!("well-formed snapshot was not accepted: {:?}", other), &hist);
+                        return;
+                    }
+                }
+                current = Some(a.border);
+            }
+            _ => {
+                m.run_frames(2);
+                hist.push("2 idle frames".into());
+                if let Some(c) = current {
+                    st.frames += 1;
+                    st.empty_frames += 1;
+                    let px = m.emu.border_buffer().px.clone();
+                    match judge(&g, &px, c, &[]) {
+                        Ok(n) => st.pixels += n,
+                        Err(e) => {
+                            fail(ctx, &format!("border-history:{}:idle-frame", if is128 { "128k" } else { "48k" }), format!("idle frame after the history does not show colour {}: {}", c, e), &hist);
+                            return;
+                        }
+                    }
+                }
+            }
+        }
+        if let Some(c) = current {
+            let got = m.emu.border_color() as u8;
+            if got != c {
+                fail(ctx, "border-history:border-color", format!("border_color() is {} but the last ULA write / loaded snapshot says {} (after: {})", got, c, hist.last().cloned().unwrap_or_default()), &hist);
+                return;
+            }
+        }
+    }
+    let mut h = crate::rng::FNV_INIT;
+    crate::rng::fnv1a(&mut h, hist.join("|").as_bytes());
+    st.patterns.insert(h);
+    st.histories += 1;
+}
+
 pub fn run(ctx: &Ctx) -> Evidence {
     let n = ctx.scale(6_400, 200_000) as usize;
     let shards = 64usize;
     let res = par_map(ctx.jobs(), shards, |sh| {
-        let mut st = St { frames: 0, pixels: 0, writes: 0, empty_frames: 0, patterns: HashSet::new(), sample: vec![] };
+        let mut st = St { frames: 0, pixels: 0, writes: 0, empty_frames: 0, patterns: HashSet::new(), histories: 0, sample: vec![] };
         for i in 0..(n / shards).max(1) {
             let case = (sh * (n / shards).max(1) + i) as u64;
             let mut rng = Rng::fork(ctx.seed ^ 0xC09, case);
-            run_case(ctx, &mut rng, case % 2 == 1, &mut st, case);
+            if case % 8 == 6 || case % 8 == 7 {
+                history_case(ctx, &mut rng, case % 2 == 1, &mut st, case);
+            } else {
+                run_case(ctx, &mut rng, case % 2 == 1, &mut st, case);
+            }
         }
         st
     });
-    let mut ev = Evidence::new("programs issuing OUTs to random even ULA ports at scripted frame clocks (0-40 per frame, several per line, in retrace, in the last/first 30 T of a frame, same-colour writes, frames without writes, after a snapshot border) on 48K/128K over 3-6 frames; every completed frame's border buffer judged pixel by pixel against the beam model (+-8 T), border_color() checked after every write. distinct = distinct (style, machine, write-time pattern) frames");
+    let mut ev = Evidence::new("programs issuing OUTs to random even ULA ports at scripted frame clocks (0-40 per frame, several per line, in retrace, in the last/first 30 T of a frame, same-colour writes, frames without writes, after a snapshot border) on 48K/128K over 3-6 frames; every completed frame's border buffer judged pixel by pixel against the beam model (+-8 T), border_color() checked after every write; plus long histories on one machine mixing OUTs to even ports incl. A1=0 ones (half repeat the previous byte exactly), SNA/SZX loads with their own border and idle frames, border_color() and idle-frame border judged after every step. distinct = distinct (style, machine, write-time pattern) frames");
     let mut pats = HashSet::new();
     for r in res {
         ev.evaluations += r.frames;
@@ -258,6 +348,7 @@ pub fn run(ctx: &Ctx) -> Evidence {
         ev.add_num("border_pixels_judged", r.pixels);
         ev.add_num("port_writes", r.writes);
         ev.add_num("frames_without_write", r.empty_frames);
+        ev.add_num("load_write_histories", r.histories);
         pats.extend(r.patterns);
         for s in r.sample {
             ev.sample(s);
